@@ -42,6 +42,24 @@ def gen_cases(rng, tier):
             x0 = rng.randint(0, w - 1); ln = rng.randint(1, w - x0)
             extra = [rng.choice([1, 127, 128, 254, rng.randint(0, 255)])] if kind == 1 else []
         cases.append(px_case(kind, mode, hq, rng.random() < 0.5, rand_color(rng), has_mask, x0, ln, row, extra))
+    # float colours whose alpha is just below 1 (it rounds to 255 in 8 bits but is not opaque) with saturated channels: the
+    # source must still be premultiplied; high-precision pipeline, partial coverage or a mask, a non-transparent destination
+    for i in range(300 if tier == "quick" else 4000):
+        al = rng.choice([0.9981, 0.99805, 0.999, 0.9995, 0.99999994, 0.9985])
+        col = tuple(f2b(v) for v in (rng.choice([1.0, 1.0, 0.9999]), rng.choice([1.0, 0.0, 0.9999]), rng.choice([1.0, 0.5]), al))
+        mode = rng.choice([3, 3, 3, 1, 12, 14, rng.randrange(29)])
+        kind = rng.choice([1, 1, 2, 3, 0])
+        w = rng.choice([2, 5, 8, 17])
+        has_mask = kind == 0 or rng.random() < 0.3
+        row = [rand_premul(rng) + ((rng.choice([1, 127, 128, 200, 254, rng.randint(1, 254)]) if has_mask else 255),) for _ in range(w)]
+        if kind == 2:
+            x0, ln, extra = rng.randint(0, w - 1), 1, [rng.choice([1, 64, 127, 128, 200, 254])]
+        elif kind == 3:
+            x0, ln, extra = rng.randint(0, w - 2), 2, [rng.randint(1, 254), rng.randint(1, 254)]
+        else:
+            x0 = rng.randint(0, w - 1); ln = rng.randint(1, w - x0)
+            extra = [rng.choice([1, 127, 128, 200, 254])] if kind == 1 else []
+        cases.append(px_case(kind, mode, True, kind in (2, 3), col, has_mask, x0, ln, row, extra))
     # shader-produced sources: pattern / draw_pixmap with bilinear and bicubic filtering (overshoot next to translucent pixels)
     for s_, a_ in [c for c in _c16.gen_cases(rng, tier) if c[0] == "pat_px"][:600 if tier == "quick" else 8000]:
         a_ = list(a_)
